@@ -885,7 +885,7 @@ func (p *Parser) ParseSwitchStatement() (*ast.SwitchStatement, error) {
 			if clause.Test == nil || o.Test == nil || clause.Test.Operator != o.Test.Operator {
 				continue
 			}
-			if clause.Test.Right.String() == o.Test.Right.String() {
+			if caseLabel(clause.Test.Right) == caseLabel(o.Test.Right) {
 				return nil, errors.WithStack(DuplicateCase(clause.Test.Meta))
 			}
 		}
@@ -947,6 +947,14 @@ func (p *Parser) ParseFallthroughStatement() (*ast.FallthroughStatement, error) 
 	stmt.Trailing = p.Trailing()
 
 	return stmt, nil
+}
+
+// caseLabel returns what a case clause tests for, comments attached to the label are not a part of it
+func caseLabel(exp ast.Expression) string {
+	if s, ok := exp.(*ast.String); ok {
+		return s.Value
+	}
+	return exp.String()
 }
 
 func (p *Parser) ParseCaseStatement() (*ast.CaseStatement, error) {
